@@ -12,7 +12,7 @@ import legb
 from checks import shellrun as SR
 
 TRUSTED = ['Coq 8.16.1 kernel (coqc), vm_compute', 'extraction (ExtrOcamlBasic only) + OCaml 4.13.1 + harness/ml/driver.ml',
-           'g++ 12 -std=c++17 / libstdc++', 'mock Dezyne runtime, mock model header, `#pragma once` shim (K1); the component\'s replies are scripted by the driver']
+           'g++ 12 -std=c++17 / libstdc++ / AddressSanitizer', 'mock Dezyne runtime, mock model header, `#pragma once` shim (K1); the component\'s replies are scripted by the driver']
 ASSUME = ['sequential histories (one operation at a time); interleavings are C11',
           'partial: the selector semantics is transcribed from the C++ support-file text; its C++ meaning is validated by running, not proved']
 
@@ -80,7 +80,7 @@ def main(argv):
     cases = SR.usable_cases(rng, nshell, want=lambda c: bool(c['cfg']['ports'].get('mc')), maxtries=6000)
     # claim/release events with arbitrary names and formals, and the multi-client port not the last provides port
     file = [['extern', ['Int'], 'int'], ['extern', ['Str'], 'std::string'],
-            ['ns', ['My'], [['itf', ['IArb'], [['enum', ['Verdict'], ['Nope', 'Granted', 'Later']]],
+            ['ns', ['My'], [['itf', ['IArb'], [['enum', ['Verdict'], ['NotGranted', 'Granted', 'GrantedLater']]],
                              [['Acquire', 'in', ['Verdict'], [['who', ['Str'], 'in'], ['n', ['Int'], 'inout']]],
                               ['Relinquish', 'in', ['bool'], [['why', ['Int'], 'in']]], ['Poke', 'in', ['void'], [['x', ['Int'], 'out']]],
                               ['Done', 'out', ['void'], [['n', ['Int'], 'in']]], ['Gone', 'out', ['void'], []]]],
@@ -130,13 +130,14 @@ def main(argv):
             d = wd.sub(f'c{ci}')
             legb.materialize(d, files, pl, c['cfg'], shim=True)
             open(os.path.join(d, 'driver.cc'), 'w').write(GD.selector_driver(pl, c['cfg'], files[0][0], clients))
-            rc, out = legb.gxx(['-o', os.path.join(d, 'drv')] + legb.includes(d) + [os.path.join(d, 'driver.cc'), os.path.join(d, files[1][0])])
+            rc, out = legb.gxx(['-fsanitize=address', '-fno-omit-frame-pointer', '-g', '-o', os.path.join(d, 'drv')] + legb.includes(d) + [os.path.join(d, 'driver.cc'), os.path.join(d, files[1][0])])
             if rc:
                 return ci, tp, ('compile', out), None
             res = []
             for h in hists:
                 text = ''.join((f'claim {o[1]} {grant if o[2] else other_reply}\n' if o[0] == 'claim' else ' '.join(str(x) for x in o) + '\n') for o in h)
-                p = subprocess.run([os.path.join(d, 'drv')], input=text.encode(), stdout=subprocess.PIPE, stderr=subprocess.STDOUT, timeout=60)
+                p = subprocess.run([os.path.join(d, 'drv')], input=text.encode(), stdout=subprocess.PIPE, stderr=subprocess.STDOUT, timeout=120,
+                                   env=dict(os.environ, ASAN_OPTIONS='detect_stack_use_after_return=1:detect_leaks=0'))
                 res.append((h, p.returncode, p.stdout.decode(errors='replace')))
             model = run_model([[700, clients, [op_wire(o) for o in h]] for h in hists])
             return ci, tp, ('ran', (mcp['name'], mc, grant, other_reply)), list(zip(res, model))
